@@ -112,7 +112,10 @@ def case_strategy(draw):
             ops.append(["wcopy", t, draw(st.integers(0, nt - 1))])
         else:
             ops.append([k, t, draw(st.integers(0, 70000)
-                                   | st.sampled_from([1, 255, 256, 65535]))])
+                                   | st.sampled_from([1, 255, 256, 65535,
+                                                      2**31 - 1, 2**31,
+                                                      0xdeadbeef, 2**32 - 1,
+                                                      2**32, 2**40 + 5]))])
     inputs = [draw(st.integers(0, 2**64 - 1)
                    | st.sampled_from([0, 1, 0x1234, 0x12345678,
                                       0x123456789abcdef0, 2**64 - 1, 0x80,
